@@ -20,11 +20,9 @@ FINCRS = [b"0", b"1", b"-1", b"0.5", b"-0.5", b"0.25", b"2.75", b"10.125", b"-3.
 def counts(r, n):
     """HRANDFIELD counts around the current (approximate) number of fields n."""
     c = [0, 1, -1, n, -n, n + 3, -(n + 3), 2, -2, 1 << 40, -(1 << 40), -(1 << 63), (1 << 63) - 1,
-         -(1 << 20), -(1 << 20) - 1, (1 << 20) + 7]
-    x = pick(r, c)
-    if x == -(1 << 20) and r.random() < 0.9:       # a million-element reply: keep it rare
-        x = -(1 << 20) - 1
-    return str(x).encode()
+         -(1 << 20) - 1, (1 << 20) + 7, -300]
+    # (exactly -(1<<20) is accepted and yields a million-element reply: exercised by hand, see design.d/C10.md)
+    return str(pick(r, c)).encode()
 
 
 def hash_cmd(r, keys, nfields):
